@@ -62,6 +62,15 @@ impl VCap for FixedBitSet { fn vcap(&self) -> i64 { self.len() as i64 } }
 impl<N, S> VCap for hashbrown::HashSet<N, S> { fn vcap(&self) -> i64 { -1 } }
 impl<N, S> VCap for std::collections::HashSet<N, S> { fn vcap(&self) -> i64 { -1 } }
 
+/// a double-ended iterator walked from the back gives the forward list reversed, and its size_hint brackets the count
+pub fn rev_ok<I: DoubleEndedIterator + Clone>(it: I) -> bool where I::Item: PartialEq {
+    let (lo, hi) = it.size_hint();
+    let f: Vec<I::Item> = it.clone().collect();
+    let mut b: Vec<I::Item> = it.rev().collect();
+    b.reverse();
+    f == b && lo <= f.len() && hi.map_or(true, |h| f.len() <= h)
+}
+
 pub fn shuffle<T>(r: &mut Rng, v: &mut Vec<T>) { for i in (1..v.len()).rev() { let j = r.below(i + 1); v.swap(i, j); } }
 
 // ---------------------------------------------------------------- builders
